@@ -16,8 +16,34 @@ Queries (one protocol line each, the real output is part of the `sym`/`lcssym` l
 """
 import itertools
 from common import *
+import ast as _ast
+
+
+def symmetry_code_fingerprint():
+    """sha1 of the AST (docstrings removed) of the functions of vermouth/ismags.py that make up the
+    automorphism search; F-C06-1 is a defect of exactly this code."""
+    names = {'analyze_symmetry', '_refine_node_partitions', '_process_ordered_pair_partitions', '_couple_nodes',
+             '_find_permutations', '_update_orbits', '_find_node_edge_color', '_get_permutations_by_length',
+             'make_partitions', 'partition_to_color', 'intersect'}
+    tree = _ast.parse(open(os.path.join(REPO, 'vermouth', 'ismags.py')).read())
+    parts = []
+    for node in _ast.walk(tree):
+        if isinstance(node, _ast.FunctionDef) and node.name in names:
+            body = node.body
+            if body and isinstance(body[0], _ast.Expr) and isinstance(getattr(body[0], 'value', None), _ast.Constant) \
+                    and isinstance(body[0].value.value, str):
+                node.body = body[1:] or [_ast.Pass()]
+            parts.append((node.name, _ast.dump(node)))
+    return hashlib.sha1(repr(sorted(parts)).encode()).hexdigest()
 
 chk = Check('C06')
+_fp = symmetry_code_fingerprint()
+_known_fps = [k.get('code_fingerprint') for k in chk.known if k['id'] == 'F-C06-1']
+SYMMETRY_CODE_IS_THE_KNOWN_ONE = _fp in _known_fps
+chk.extra['symmetry_code_fingerprint'] = _fp
+if not SYMMETRY_CODE_IS_THE_KNOWN_ONE:
+    chk.notes.append('the automorphism search of vermouth/ismags.py differs from the code in which F-C06-1 was recorded '
+                     '(fingerprint %s): cases with the F-C06-1 signature are reported as violations' % _fp)
 chk.extra['rule'] = ('graph pairs: exhaustive small graphs (graph atlas, random keys), symmetric patterns of 5-10 '
                      'nodes (paths, cycles, stars, spiders, trees+chord, complete bipartite) inside noisy targets, '
                      'random sparse pairs for the common-subgraph search, corpus; node keys non-contiguous, 1-3 '
@@ -260,8 +286,13 @@ def run_pair(cid, g, sg, do_iso=True, do_lcs=False, explicit=False, alias=False)
                     except Exception:  # noqa
                         prod = None
                     if prod is not None and prod < naut:
-                        finding = 'F-C06-1'
                         chk.count('F-C06-1_signature')
+                        if SYMMETRY_CODE_IS_THE_KNOWN_ONE:
+                            finding = 'F-C06-1'
+                        else:
+                            # the automorphism search was edited since the finding was recorded: its
+                            # failures are not the listed finding any more, report them
+                            chk.count('F-C06-1_signature_but_symmetry_code_changed')
                 chk.count('classes=%s' % (0 if not classes else 1 if len(classes) == 1 else '2-5' if len(classes) <= 5 else '>5'))
                 impl = 'classes=%d ok' % len(out)
                 add('%s-sym' % cid, line('sym', gn, ge, sn, se, [list(m) for m in out]), impl, errs, nontriv, finding)
